@@ -161,3 +161,4 @@ CFG["manifest"]["note"] = CFG["manifest"]["note"].replace(
     "(hand-written schemas validated against recorded call sequences) and, statically, tied by skeleton extraction (tools/skel, trusted) "
     "for every type but ProduceRequest / FetchResponse and the record / message-set code; the skeleton abstracts field values, so "
     "value-level facts (which struct field goes where, map iteration order, re-salting) remain observed only.")
+CFG["required_theorems"] += ["Props.C09skel.mirror_toFmt_some", "Props.C09skel.skel_roundtrip_total"]
